@@ -448,6 +448,9 @@ Definition LSq (id : nat) (n : nat) (b : vec) : leaf :=                   (* x |
 Definition LCube (id : nat) (n : nat) : leaf :=                           (* PowerOperator(space, 3) *)
   {| l_id := id; l_dom := SV n; l_ran := SV n; l_lin := false; l_func := false;
      l_fun := fun x => vmul x (vmul x x) |}.
+Definition LNSt (id : nat) (n : nat) (b : vec) : leaf :=                  (* x_i |-> x_i * x_{i-1} + b_i, x_{-1} = 0 *)
+  {| l_id := id; l_dom := SV n; l_ran := SV n; l_lin := false; l_func := false;
+     l_fun := fun x => vadd (vmul x (nzero :: x)) b |}.
 Definition LAbs (id : nat) (n : nat) : leaf :=                            (* x |-> |x|  (real only) *)
   {| l_id := id; l_dom := SV n; l_ran := SV n; l_lin := false; l_func := false;
      l_fun := map nabs |}.
